@@ -139,7 +139,10 @@ def run_case(case):
 
 
 def _root_dynitems(case):
+    """root objects whose handle caches offsets of movable parts: arrays of dynamic items, structs with >= 2 dynamic fields"""
     sp = case["type"]
+    if sp["k"] == "struct":
+        return sum(1 for _, ft in sp["fields"] if tg.is_dynamic(ft)) >= 2
     return sp["k"] == "array" and tg.is_dynamic(sp["item"])
 
 
